@@ -70,7 +70,9 @@ def run(p, led, tier):
     def drive(o, mname, state):
         it, obj = h.build(o, "AND", True, False, state)
         if TS in obj.fields:
-            obj.fields[TS] = Unknown(TS)
+            # state invariant (checked below: whoever opens the breaker stamps the time): an OPEN / HALF_OPEN breaker has a
+            # recorded failure time — an arbitrary timestamp, never None; a CLOSED one may have none
+            obj.fields[TS] = Unknown(TS, kind="datetime") if state != "CLOSED" else Unknown(TS)
         it.watch_fields.add(("CoherentFeedForwardLoop", TS))
         try:
             r = it.call_fi(M[mname], [obj], {})
